@@ -7,6 +7,7 @@ import (
 	"context"
 	"encoding/json"
 	"fmt"
+	"github.com/olric-data/olric/config"
 	"math/rand"
 	"os"
 	"path/filepath"
@@ -314,6 +315,76 @@ func TestC19(t *testing.T) {
 		for _, p := range paths {
 			p.Close()
 		}
+		c.ShutdownAsync()
+	}
+	// Background work that is configured for, or caused by, one DMap: a DMap "b" with an idle limit next to a DMap "a.b"
+	// without one, and a key that expires in "c.d" while the same key lives on in "d" (names with dots; two members, two
+	// copies of everything).  Nothing of "a.b" and "d" may change while the eviction workers do their job on "b" and "c.d".
+	for r := 0; r < envInt("VERIF_C19_BACKGROUND", 2); r++ {
+		c, err := cluster.Start(cluster.Options{Replicas: 2, Partitions: 7, Manual: true,
+			DMaps: func(d *config.DMaps) {
+				d.NumEvictionWorkers = 4
+				d.Custom = map[string]config.DMap{"b": {MaxIdleDuration: 300 * time.Millisecond}}
+			}}, 2)
+		if err != nil {
+			t.Fatal(err)
+		}
+		seq++
+		w.Emit(trace.Ev{"t": "reset", "seq": seq, "cfg": "N=2 R=2, idle limit on DMap b only, expiry in DMap c.d only"})
+		p := Embedded(c.Members[r%2])
+		put := func(d, k, v string, o PutOpts) {
+			rep := p.Put(ctx, d, k, v, o)
+			w.Emit(trace.Ev{"t": "op", "op": "put", "d": d, "k": k, "v": v, "ret": rep.Ret, "detail": rep.Err, "path": p.Name()})
+			sum.Evaluations++
+		}
+		var ks []string
+		for i := 0; i < 12; i++ {
+			k := fmt.Sprintf("bg%d", i)
+			ks = append(ks, k)
+			put("a.b", k, "ab-"+k, PutOpts{})
+			put("b", k, "b-"+k, PutOpts{})
+			put("d", k, "d-"+k, PutOpts{})
+			// this one expires; the trace spec is told nothing about it (DMap c.d is not observed)
+			p.Put(ctx, "c.d", k, "cd-"+k, PutOpts{Mode: "PX", D: 150 * time.Millisecond})
+		}
+		time.Sleep(1500 * time.Millisecond)
+		for _, d := range []string{"a.b", "d"} {
+			// white box first (looking through the API touches the keys)
+			st := map[string]int{}
+			for _, m := range c.Live() {
+				for pid := uint64(0); pid < 7; pid++ {
+					for _, kind := range []partitions.Kind{partitions.PRIMARY, partitions.BACKUP} {
+						for _, e := range m.V.DMap.VerifEntries(d, pid, kind) {
+							st[e.Key]++
+						}
+					}
+				}
+			}
+			stored, copies := []string{}, []trace.Ev{}
+			for k, n := range st {
+				stored = append(stored, k)
+				copies = append(copies, trace.Ev{"k": k, "n": n})
+			}
+			sort.Strings(stored)
+			sort.Slice(copies, func(a, b int) bool { return copies[a]["k"].(string) < copies[b]["k"].(string) })
+			gets := []trace.Ev{}
+			for _, k := range ks {
+				rep := p.Get(ctx, d, k)
+				v := "nil"
+				if rep.Ret == "val" {
+					v = rep.V
+				} else if rep.Ret != "notfound" {
+					v = "error:" + rep.Ret
+				}
+				gets = append(gets, trace.Ev{"k": k, "v": v, "path": p.Name()})
+			}
+			w.Emit(trace.Ev{"t": "obs", "d": d, "gets": gets, "scan": stored, "stored": stored, "copies": copies, "want": 2,
+				"after": "1.5 s of background eviction for other DMaps"})
+			sum.Evaluations++
+		}
+		sum.Histories++
+		sum.DistinctNontrivial++
+		p.Close()
 		c.ShutdownAsync()
 	}
 	cluster.WaitBackground(10 * time.Second)
